@@ -10,6 +10,7 @@ import Driver.Compare
 import Driver.Num
 import Driver.Flt
 import Driver.Fmt
+import Driver.Sinks
 
 open Driver
 
@@ -26,6 +27,7 @@ def dispatch (c : Case) : Verdict :=
   else if fam.startsWith "num." || fam.startsWith "blk.num." then Driver.Num.handle c
   else if fam.startsWith "flt." then Driver.Flt.handle c
   else if fam == "fmt" then Driver.Fmt.handle c
+  else if fam.startsWith "sk." then Driver.Sinks.handle c
   else { corr := false, why := "no handler for op " ++ c.op }
 
 structure Stats where
